@@ -298,6 +298,7 @@ func record(r *mc.Run, c Case, kind, detail string) {
 func TestCheck(t *testing.T) {
 	r := mc.New(t, "C17")
 	defer r.Finish()
+	r.CrashFails = true
 	if r.Replay != nil {
 		var c Case
 		r.DecodeReplay(&c)
